@@ -65,7 +65,8 @@ def _setup(vc, N, Ms, resample):
             def calculateMeasurement(self, sensor_eci, state, utc, noisy=False):
                 vals = np.dot(self.H, state)
                 return {f"c{i}": vals[i] for i in range(len(vals))}
-        obs.append(_NS(julian_date=2459000.5, sensor_eci=None, measurement=Meas(H), r_matrix=R, measurement_states=y))
+        # (ids in DESCENDING stack order: the stack order is the order the observations are handed over in, not the order of any id)
+        obs.append(_NS(julian_date=2459000.5, sensor_eci=None, measurement=Meas(H), r_matrix=R, measurement_states=y, sensor_id=900 - k, target_id=7))
         Hs.append(H); Rs.append(R); ys.append(y)
     Hst = np.concatenate(Hs, axis=0)
     Mtot = sum(Ms)
